@@ -157,6 +157,27 @@ def run(tier, seed, open_findings):
             if viol or outcome.startswith('OTHER'):
                 fails.append(dict(case=dict(mode=mode, mechanism=kind, spelling=sp, location=loc.replace(root, '<root>')),
                                   observed=dict(outcome=outcome, fetched=[(k, p.replace(root, '<root>')) for k, p in viol]), required='no fetch outside the allowed class; only library exceptions'))
+        # base_url='' (e.g. os.path.dirname('main.xsd')): the working directory is the base directory, not "no base"
+        cwd = os.getcwd()
+        try:
+            os.chdir(base)
+            for kind, (sp, loc) in itertools.product(['main-source', 'document-api-hint', 'schema-include'], [(k, v) for k, v in SPELL.items() if k in ('inside', 'evil-rel', 'evil-abs', 'evil-url', 'sibling-rel', 'url-dots-out')]):
+                n += 1; _events.clear(); outcome = 'ok'
+                try:
+                    if kind == 'main-source': xmlschema.XMLResource(loc, base_url='', allow='sandbox')
+                    elif kind == 'document-api-hint':
+                        open(hint_doc, 'w').write(f'<x xmlns:xsi="http://www.w3.org/2001/XMLSchema-instance" xsi:noNamespaceSchemaLocation="{loc}"/>')
+                        xmlschema.is_valid('hinted.xml', base_url='', allow='sandbox')
+                    else:
+                        xmlschema.XMLSchema10(f'<xs:schema {XS}><xs:include schemaLocation="{loc}"/><xs:element name="r"/></xs:schema>', base_url='', allow='sandbox')
+                except XMLSchemaException as e: outcome = type(e).__name__
+                except Exception as e: outcome = 'OTHER:' + type(e).__name__ + ': ' + str(e)[:80]
+                own = {os.path.realpath(hint_doc)}
+                viol = [(k, p_) for k, p_ in _events if not (k == 'open' and p_ in own) and not allowed('sandbox', 'open' if k == 'open' else 'remote', p_, base)]
+                if viol or outcome.startswith('OTHER'):
+                    fails.append(dict(case=dict(mode='sandbox', mechanism=kind, spelling=sp, location=loc.replace(root, '<root>'), base_url=''), observed=dict(outcome=outcome, fetched=[(k, p_.replace(root, '<root>')) for k, p_ in viol]),
+                                      required='no fetch outside the working directory; only library exceptions'))
+        finally: os.chdir(cwd)
         return [result('C12.confinement_catalogue', f'5 allow modes x 5 mechanisms (include, import, redefine, instance hint on a built schema, instance hint through the package-level API) x {len(SPELL)} location spellings, plus parse() of a resource / document object created with the mode x 4 targets; audit hook on open + stub http opener', n, fails, exhaustive=True,
                        samples=[dict(mode='sandbox', mechanism='include', location='../sand_evil/inc.xsd')])]
     finally:
